@@ -49,6 +49,7 @@ def gen_member(rng, k):
         m["tables"] = [gen_table(rng, n, content)]
     elif kind == "time":
         m["tables"] = [gen_table(rng, n, "mono" if content == "nonmono" else content)]
+        m["scale"] = rng.choice(["utc", "utc", "tai", "tt"])
     elif kind == "quantity2":
         n2 = n if rng.random() < 0.6 else rng.choice([2, 3, 5])
         m["tables"] = [gen_table(rng, n, content), gen_table(rng, n2, rng.choice(["mono", "nonmono"]))]
@@ -85,6 +86,29 @@ def columns(m):
     return [(m["tables"][0], 0), (m["tables"][1], 1)]
 
 
+def t0_of(m):
+    """reference instant of a Time member in the member's own time scale"""
+    return Time(T0.isot, scale=m.get("scale", "utc"))
+
+
+def time_instants_ok(coord, case, positions_of, label, fails):
+    """Every Time member of `coord` (a table coordinate made from the case's members by slicing or
+    interpolating) must hold, as *instants*, the source table read at `positions_of(member input index)`."""
+    subs = getattr(coord, "_table_coords", [coord])
+    p = 0
+    for m, sub in zip(case["members"], subs):
+        if m["kind"] == "time":
+            pos = positions_of(p)
+            want = t0_of(m) + np.array([interp_ref(m["tables"][0], x) for x in pos]) * u.s
+            got = sub.table
+            if got.shape != want.shape:
+                fails.append(f"{label}: Time table has {got.shape} entries, expected {want.shape}")
+            elif len(pos) and np.max(np.abs((got - want).to_value(u.s))) > 1e-5:
+                fails.append(f"{label}: Time table is {got.isot.tolist()} ({got.scale}), the source read at {list(pos)} gives "
+                             f"{want.isot.tolist()} ({want.scale}): not the same instants")
+        p += n_inputs(m)
+
+
 def build_member(m, k):
     from ndcube.extra_coords.table_coord import QuantityTableCoordinate, SkyCoordTableCoordinate, TimeTableCoordinate
     kind = m["kind"]
@@ -95,7 +119,7 @@ def build_member(m, k):
         return QuantityTableCoordinate(np.array(m["tables"][0]) * un, np.array(m["tables"][1]) * un,
                                        names=[f"qa{k}", f"qb{k}"], physical_types=[f"custom:qa{k}", f"custom:qb{k}"])
     if kind == "time":
-        return TimeTableCoordinate(T0 + np.array(m["tables"][0]) * u.s, names=f"t{k}", physical_types="time")
+        return TimeTableCoordinate(t0_of(m) + np.array(m["tables"][0]) * u.s, names=f"t{k}", physical_types="time")
     sc = SkyCoord(np.array(m["tables"][0]) * u.deg, np.array(m["tables"][1]) * u.deg, frame="icrs")
     return SkyCoordTableCoordinate(sc, mesh=(kind == "sky2mesh"), names=[f"lon{k}", f"lat{k}"],
                                    physical_types=["pos.eq.ra", "pos.eq.dec"])
@@ -313,6 +337,8 @@ def run(case):
                     if not same(got, want, tol):
                         fails.append(f"coord[{items}].interpolate({g2}) entry {j} is {got}, the sliced tables interpolated there give {want}")
                         break
+                if not fails:
+                    time_instants_ok(ic, case, lambda p: [g + offs[p] for g in g2[p]], f"coord[{items}].interpolate({g2})", fails)
                 tags.append("interpolate-of-slice")
             # a slice of the sliced coordinate (a meshed SkyCoord table composes its slices lazily)
             if not fails:
@@ -385,7 +411,9 @@ def run(case):
                 unequal_mesh = True
             p += n_inputs(m)
         try:
-            arrs = [np.array(g, dtype=float) for g in grids]
+            # array-like grids: numpy arrays, lists or tuples of positions
+            gconv = [lambda g: np.array(g, dtype=float), list, tuple][case["seed"] % 3]
+            arrs = [gconv(g) for g in grids]
             ic = coord.interpolate(arrs) if len(case["members"]) > 1 else (coord.interpolate(*arrs) if case["members"][0]["kind"] != "time" else coord.interpolate(arrs[0]))
             iw = ic.wcs
             it_vals = []
@@ -404,6 +432,8 @@ def run(case):
                     fails.append(f"interpolate({grids}) entry {ks} is {got}, linear interpolation of the tables gives {want}")
                     break
             it_obs = {"grids": grids, "vals": it_vals}
+            if not fails:
+                time_instants_ok(ic, case, lambda p: grids[p], f"interpolate({grids})", fails)
             tags.append("interpolate" + ("-unequal-grids" if len({len(g) for g in grids}) > 1 else ""))
         except Exception as e:
             fails.append(("[quantity2 grids of different lengths] " if unequal_q2 else "[sky2mesh grids of different lengths] " if unequal_mesh else "") +
